@@ -407,6 +407,10 @@ class Engine:
         names = all_names(prog)
         self.free = sorted(n for n in names if n not in self.index)
         for n in self.free:
+            if n in ("pi", "e", "E", "I", "oo", "zoo", "nan", "inf"):
+                # these names denote mathematical constants for Polar's CAS (documented use: Uniform(pi/4 - 0.1, ...)); the
+                # oracle computes with rationals and cannot represent them - never treat them as free parameters
+                raise Unsupported(f"CAS constant {n} in the program")
             if n not in self.params:
                 raise Unsupported(f"no value for symbolic constant {n}")
         self.init_vals = dict(init_vals or {})
